@@ -506,6 +506,7 @@ type rec struct {
 }
 
 type ctx struct {
+	restarts int
 	b     run.Batch
 	r     *ev.Result
 	srv   *drv.Srv
@@ -773,6 +774,13 @@ func (x *ctx) inspect(where string) {
 func (x *ctx) restart() bool {
 	run.Op("%s restart", x.name)
 	client.CloseIdleConnections()
+	// permission bits are not part of what was registered: every other restart finds the key file
+	// group- and world-writable (a restored backup, a different umask)
+	if x.restarts++; x.restarts%2 == 1 {
+		if os.Chmod(filepath.Join(x.srv.Dir, "gcaPubKey.dat"), 0666) == nil {
+			x.r.Count("restarts_with_loose_key_file_mode", 1)
+		}
+	}
 	if err := x.srv.Restart(); err != nil {
 		x.srv.S = nil
 		if strings.HasPrefix(err.Error(), "close:") {
